@@ -1,0 +1,6 @@
+//! MRT file-in unit: the HTTP queue endpoint (`units::mrt_file_in::api`).
+pub use crate::http::ProcessRequest;
+pub use crate::units::verif_mrt_file_in::{new_processor, Processor, QueueEntry};
+/// The HTTP types `ProcessRequest` speaks, so a harness builds requests with
+/// the very same hyper version.
+pub use hyper;
